@@ -5,7 +5,7 @@
    five mechanisms each possibly raising; [wf E] only says that handler ids are distinct.
    Histories are arbitrary lists of assignments, reads and `del` from any start state. *)
 From Coq Require Import List Arith Bool PeanoNat ZArith.
-From TV Require Import Common.Harness C02.Model C02.Law C02.Proofs C02.Dyn C02.DynProofs.
+From TV Require Import Common.Harness C02.Model C02.Law C02.Proofs C02.Dyn C02.DynProofs C02.Proto.
 Import ListNotations.
 Local Open Scope nat_scope.
 
@@ -192,6 +192,21 @@ Example handlers_come_and_go :
   /\ map (fun p => map (fun c : call => fst (fst c)) (o_calls (snd p))) (drun E reacts (init E) ops)
      = [[10]; []; []; [10; 30; 31]; []; [10; 30; 32]; []; [32; 33]].
 Proof. split; [repeat constructor; cbn; tauto|vm_compute; reflexivity]. Qed.
+
+(* ---------- a trait PROTOTYPED from another object's trait under a different name (Proto.v): its handlers are told the local
+   assignments that are changes, `del` (back to the prototype), and the prototype's changes exactly while no local value
+   is set — for every handler list with distinct ids, every history, every start state ---------- *)
+Theorem prototyped_trait_law_holds :
+  forall hs, nodupb (map h_id hs) = true -> forall ops st i, plaw hs i st (prun hs st ops) = [].
+Proof. exact prun_law. Qed.
+Print Assumptions prototyped_trait_law_holds.
+
+Example prototyped_trait_nontrivial :
+  let hs := [mkHandler 1 StaticChanged false; mkHandler 10 Otc false; mkHandler 11 Observe false] in
+  let ops := [PProto 2; PAssign 3; PAssign 3; PProto 4; PDelete; PProto 5; PRead; PAssign 5; PDelete] in
+  map (fun p => (po_read (snd p), length (po_calls (snd p)))) (prun hs (mkP None 1) ops)
+  = [(2, 3); (3, 3); (3, 0); (3, 0); (4, 3); (5, 3); (5, 0); (5, 0); (5, 0)].
+Proof. vm_compute. reflexivity. Qed.
 
 (* Non-vacuity: equality mode, five mechanisms, two raising handlers; values 0 and 1 equal but not identical,
    2 is NaN-like (unequal to itself), 3 is rejected.  Calls happen for None->0, 1->2, 2->(another NaN 4) only. *)
